@@ -564,6 +564,25 @@ class NF:
         return p.canon(), p.deps
 
     def _e_Tuple(self, e, sc, at, depth):
+        if any(isinstance(x, ast.Starred) for x in e.elts) and isinstance(e, ast.Tuple):
+            # (a, *t, b) == (a,) + t + (b,): same canonical form as the concatenation
+            total, seg = None, []
+
+            def flush():
+                nonlocal total, seg
+                if seg:
+                    p_ = self._e_Tuple(ast.Tuple(elts=seg, ctx=ast.Load()), sc, at, depth)
+                    total = p_ if total is None else total + p_
+                    seg = []
+            for x in e.elts:
+                if isinstance(x, ast.Starred):
+                    flush()
+                    p_ = self.poly(x.value, sc, at, depth)
+                    total = p_ if total is None else total + p_
+                else:
+                    seg.append(x)
+            flush()
+            return total
         elems = [self.poly(x, sc, at, depth) for x in e.elts]
         d = frozenset().union(*[x.deps for x in elems]) if elems else frozenset()
         g = frozenset().union(*[x.gdeps for x in elems]) if elems else frozenset()
@@ -574,6 +593,16 @@ class NF:
     _e_List = _e_Tuple
 
     def _e_IfExp(self, e, sc, at, depth):
+        # `a if a < b else b` is min(a, b) (max likewise): same canonical form as the builtin
+        t = e.test
+        if isinstance(t, ast.Compare) and len(t.ops) == 1 and isinstance(t.ops[0], (ast.Lt, ast.LtE, ast.Gt, ast.GtE)):
+            L, R = ast.dump(t.left), ast.dump(t.comparators[0])
+            B, O = ast.dump(e.body), ast.dump(e.orelse)
+            if {B, O} == {L, R} and L != R:
+                less = isinstance(t.ops[0], (ast.Lt, ast.LtE))
+                fn = "min" if (B == L) == less else "max"
+                call = ast.Call(func=ast.Name(id=fn, ctx=ast.Load()), args=[t.left, t.comparators[0]], keywords=[])
+                return self.poly(ast.copy_location(call, e), sc, at, depth)
         c = self.poly(e.test, sc, at, depth)
         a = self.poly(e.body, sc, at, depth)
         b = self.poly(e.orelse, sc, at, depth)
@@ -711,6 +740,8 @@ class NF:
     def _mkcall(self, fname, args, kws, fdeps=frozenset(), fg=frozenset(), nondiff=False):
         deps = frozenset(fdeps).union(*[a.deps for a in args], *[v.deps for v in kws.values()])
         g = frozenset() if nondiff else frozenset(fg).union(*[a.gdeps for a in args], *[v.gdeps for v in kws.values()])
+        if fname.split(".")[-1] in ("min", "max", "minimum", "maximum") and len(args) >= 2 and not kws:
+            args = sorted(args, key=lambda a: a.canon())   # commutative: one canonical argument order
         txt = ", ".join([a.canon() for a in args] + [f"{k}={v.canon()}" for k, v in sorted(kws.items())])
         name = f"{fname}({txt})"
         self.meta[name] = {"deps": deps, "gdeps": g, "fn": fname, "args": list(args), "kws": dict(kws)}
